@@ -161,6 +161,7 @@ def run(ctx):
     # (6) the killer's input is the real usage: the pool counter is re-summed whenever a container leaves the active list (C04#3)
     from . import c04, c08
     c04.check_invariant(c08._Renumber(ctx, {3: 6, 4: 6}))
+    c04.check_setter_for_active_only(c08._Renumber(ctx, {3: 6}), 3)   # ... and is not lowered again by a container that already left
     # "stop once usage fits" is tested on the pool's counter: a kill must lower it by the victim's usage at once — every change of a
     # container's usage goes through the setter that books the difference on the pool (C04#1/#2)
     c04.check_writers(c08._Renumber(ctx, {1: 6}), 1)
